@@ -1,6 +1,6 @@
 (* C01 — Graph reasoning verdict is the conjunction over all reachable causaloids. *)
 From Coq Require Import List Arith NArith ZArith Bool.
-From DC Require Import Common.AList Graph.UltraGraph Causal.Model Causal.GraphProofs.
+From DC Require Import Common.AList Graph.UltraGraph Causal.Model Causal.GraphProofs Causal.Termination.
 Import ListNotations.
 
 (* For every graph of singleton causaloids (any shape: branching, diamonds, disconnected parts; the
@@ -31,5 +31,22 @@ Theorem C01_from_to : forall nodes edges data idx,
   (r = RErr -> exists v, reach edges start v /\ nv nodes data idx v = Some VE).
 Proof. exact from_to_spec. Qed.
 
+(* Termination: on an ACYCLIC graph (a rank strictly decreasing along every edge) the traversal ends and an explicit
+   amount of fuel suffices, so the statement above holds without its fuel side condition. *)
+Theorem C01_acyclic_graph_verdict :
+  forall nodes edges data idx,
+  (forall i, i < length nodes -> nv nodes data idx i <> None) ->
+  (forall a b, emem (a, b) edges = true -> b < length nodes) ->
+  forall rank : nat -> nat, (forall a b, emem (a, b) edges = true -> rank b < rank a) ->
+  forall start s fuel,
+  start < length nodes -> data <> [] -> 2 + adj_bound edges + rank start * (adj_bound edges + 1) <= fuel ->
+  let r := fst (run fuel (TFromTo nodes edges start (length nodes) idx) data s) in
+  (r = ROk true <-> forall v, reach edges start v -> nv nodes data idx v = Some VT) /\
+  ((exists v, reach edges start v /\ nv nodes data idx v = Some VF) ->
+   (forall v, reach edges start v -> nv nodes data idx v <> Some VE) -> r = ROk false) /\
+  ((exists v, reach edges start v /\ nv nodes data idx v = Some VE) -> r = RErr \/ r = ROk false).
+Proof. exact acyclic_graph_verdict. Qed.
+
 Print Assumptions C01_graph_verdict_is_conjunction.
+Print Assumptions C01_acyclic_graph_verdict.
 Print Assumptions C01_from_to.
